@@ -233,6 +233,19 @@ let run_we kind parts =
      | WrapErase.Done (rest, ret) -> "ok ret=" ^ (match ret with Some e -> e2s e | None -> "end") ^ " rest=" ^ dump false rest)
   | _ -> "?"
 
+(* unordered_multimap with identity-tagged keys: elements ((k,id),v) encoded as (k*1000+id, v); == is Spec.perm_eqb *)
+let run_mmk rest =
+  let parts = split_on "/" rest in
+  let tr s = match String.split_on_char '.' s with [k; id; v] -> (int_of_string k, int_of_string id, int_of_string v) | _ -> failwith "triple" in
+  let a = L.map tr (L.nth parts 0) and b = L.map tr (L.nth parts 1) in
+  let m, r = (match parts with [_; _; [m; r]] -> int_of_string m, int_of_string r | _ -> 0, 0) in
+  let keep (k, _, _) = not (m > 0 && k mod m = r) in
+  let enc l = L.map (fun (k, id, v) -> (zi (k * 1000 + id), zi v)) (L.filter keep l) in
+  let a = enc a and b = enc b in
+  let bs x = if x then "1" else "0" in
+  let e1 = Spec.perm_eqb a b and e2 = Spec.perm_eqb b a in
+  Printf.sprintf "%s%s%s%s %d %d" (bs e1) (bs (not e1)) (bs e2) (bs (not e2)) (L.length a) (L.length b)
+
 let () = iter_lines (fun line ->
   let segs = L.filter (fun s -> s <> []) (L.map words (String.split_on_char ';' line)) in
   let res = (try
@@ -241,6 +254,7 @@ let () = iter_lines (fun line ->
      | head :: ops ->
        (match head with
         | "we" :: kind :: _hm :: rest -> run_we kind (split_on "/" rest)
+        | ("mmk" | "mmko") :: _hm :: rest -> run_mmk rest
         | kind :: _ ->
           let h = Array.of_list head in
           let ops = L.map Array.of_list ops in
